@@ -127,6 +127,8 @@ def ordered_lines(t, combo, flags, order):
     fl = ["%d = N %d 0" % (t, f) for f in flags]
     if order == "twice":  # a flag written twice is still one flag (the note IS flagged)
         return lanes + fl + fl[::-1]
+    if order == "padded":  # blank padding around a flag line (C07 promises it for every N line)
+        return lanes + [("\t" if f == 5 else "") + "%d = N %d 0" % (t, f) + (" " if f == 5 else " \t") for f in flags]
     if order == "length":  # a flag line is a flag line whatever its length field says (C03: it contributes no length)
         return lanes + ["%d = N %d %d" % (t, f, 96 + f) for f in flags]
     if order == "after" or not combo or not fl:
@@ -144,7 +146,7 @@ def _order_shard(ctx, r, fpi):
         for fb in FLAGS:
             if not fa and not fb:
                 continue
-            for order in ("before", "between") + (("twice", "length") if r == 192 else ()):
+            for order in ("before", "between") + (("twice", "length", "padded") if r == 192 else ()):
                 ctx.node()
                 body = note_lines(0, (0,))
                 exp = ["STRUM"]
@@ -163,7 +165,7 @@ def _order_shard(ctx, r, fpi):
                 ctx.hist["flag_order_tracks"] += 1
                 if got != exp:
                     k = next((i for i in range(min(len(exp), len(got))) if got[i] != exp[i]), 0) if isinstance(got, list) and got[:1] != ["raises"] else 0
-                    e1.report(ctx, "decision-packed", text, PROBE_SRC, [exp], got if len(str(got)) < 300 else str(got)[:300], "resolution %d distance %d flags %r/%r with the flag lines written %s the lane lines / twice / with a length (first difference at note %d)" % (r, d, fa, fb, order, k))
+                    e1.report(ctx, "decision-packed", text, PROBE_SRC, [exp], got if len(str(got)) < 300 else str(got)[:300], "resolution %d distance %d flags %r/%r with the flag lines written %s the lane lines / twice / with a length / padded with blanks (first difference at note %d)" % (r, d, fa, fb, order, k))
 
 
 HEADER_PROBE = '''
